@@ -211,6 +211,26 @@ pub fn pipeline_guards(v: &[(u32, u32)], k: u32) -> u32 {
     n
 }
 
+/// misaligned index: `k` counts the survivors of the filter, but is used as a position in `table` (which is aligned with `v`)
+pub fn misaligned_index(v: &[u32], table: &[u32]) -> u32 {
+    let mut n = 0u32;
+    for (k, _x) in v.iter().filter(|x| **x > 3).enumerate() {
+        n = n.wrapping_add(table.get(k).copied().unwrap_or(0));
+    }
+    n
+}
+
+/// aligned twin: the same loop with the test inside the body
+pub fn aligned_index(v: &[u32], table: &[u32]) -> u32 {
+    let mut n = 0u32;
+    for (k, x) in v.iter().enumerate() {
+        if *x > 3 {
+            n = n.wrapping_add(table.get(k).copied().unwrap_or(0));
+        }
+    }
+    n
+}
+
 pub enum RowKind {
     Keep(u32),
     Drop,
